@@ -186,7 +186,7 @@ def attr_kinds() -> dict:
     init = _method(defs["AttrTensor"], "__init__") if "AttrTensor" in defs else None
     tensor_guard = bool(init and _raises_typeerror_guard_before_copy(init, "value"))
     # does the generic _validate turn *every* exception of the conversion into TypeError?
-    val = _method(defs["Attr"], "_validate")
+    val = _method(defs["Attr"], "_validate") if "Attr" in defs else None
     catch_all = False
     if val:
         for node in ast.walk(val):
@@ -628,9 +628,19 @@ KINDS = {
 }
 
 
-def capture_table() -> list:
-    a = capture_ast()
-    o = capture_observed()
+def capture_table(errors: dict) -> list:
+    """Rows of the capture table. A source that no longer has the expected shape, or a constructor that can
+    no longer be probed, gives `opaque` entries (the generated obligation then fails) - never an exception."""
+    try:
+        a = capture_ast()
+    except Exception as e:  # noqa: BLE001
+        errors["Capture(AST)"] = f"{type(e).__name__}: {e}"[:300]
+        a = {}
+    try:
+        o = capture_observed()
+    except Exception as e:  # noqa: BLE001
+        errors["Capture(observed)"] = f"{type(e).__name__}: {e}"[:300]
+        o = {}
     rows = []
     for site, kind in KINDS.items():
         rows.append({"site": site, "kind": kind, "ast": a.get(site, "opaque"), "observed": o.get(site, "opaque")})
@@ -659,13 +669,23 @@ def emit_capture(rows: list) -> str:
 
 
 def generate() -> dict:
-    te = tensor_enum()
+    errors: dict = {}
+    try:
+        te = tensor_enum()
+    except Exception as e:  # noqa: BLE001
+        errors["TensorEnum"] = f"{type(e).__name__}: {e}"[:300]
+        te = {d: {"enum": 0, "field": "none"} for d in DTYPES}
     write_if_changed(GEN / "TensorEnum.lean", emit_tensor_enum(te))
-    ak = attr_kinds()
+    try:
+        ak = attr_kinds()
+    except Exception as e:  # noqa: BLE001
+        errors["AttrKinds"] = f"{type(e).__name__}: {e}"[:300]
+        ak = {"rows": {}, "unknown": [], "missing": sorted(CLASSES), "tensor_guard": False,
+              "validate_catch_all": False, "dtype_catches": [], "dtype_spec_catches": []}
     write_if_changed(GEN / "AttrKinds.lean", emit_attr_kinds(ak))
-    rows, errs = capture_table()
+    rows, errs = capture_table(errors)
     write_if_changed(GEN / "Capture.lean", emit_capture(rows))
-    return {"tensor_enum": te, "attr_kinds": ak, "capture": rows, "capture_probe_errors": errs}
+    return {"tensor_enum": te, "attr_kinds": ak, "capture": rows, "capture_probe_errors": errs, "errors": errors}
 
 
 if __name__ == "__main__":
